@@ -53,8 +53,10 @@ PACKS = {
     "ow2b": dict(ow2="b"),
     # a strategy with a constructor of its own whose backward map has two preimages (only where asked for: OPT_IN)
     "fold": dict(fold=True),
+    # an involutive equivalence (letter swap) as an *expansion* strategy: the same two-way rule arrives in both directions
+    "swapexp": dict(swapexp=True),
 }
-OPT_IN = {"fold"}
+OPT_IN = {"fold", "swapexp"}
 # packs whose point is a statistics mechanism always run with statistics; the cycle symmetry needs three letters
 PACK_STATS = {"fold": "s0", "trim": "s2", "trimsym": "s2", "rename": "s2", "mono": "s1", "trimonly": "s2", "trimrename": "s2", "hidden": "s1"}
 PACK_EXTRA_PATTERNS = {"fold": [("aa", "bb"), ("ab", "ba"), ("aba", "bab"), ("aab", "bba")], "trim": [("ba",), ("aa", "ab"), ("ab",)], "trimsym": [("ba",)], "mono": [("ba",)],
@@ -115,7 +117,7 @@ def configs(tier: str, seed: int, flavours=("default", "forget", "forest"), pack
     if max_n:
         # configurations that must not be sampled away: the packs that exist for one specific mechanism
         special = [c for c in out if c[4] in ("lazy", "needrev", "oneway", "onewaysym", "pfactory", "split", "trim", "trimsym", "rename",
-                                              "mono", "fac2", "symcycle", "trimonly", "trimrename", "hidden", "pfactory2", "noinf", "redpar", "lookahead", "ow2a", "ow2b", "fold")]
+                                              "mono", "fac2", "symcycle", "trimonly", "trimrename", "hidden", "pfactory2", "noinf", "redpar", "lookahead", "ow2a", "ow2b", "fold", "swapexp")]
         keep = []
         seen = set()
         for c in special:
